@@ -26,7 +26,7 @@ CHECKS = {
              "root/internal/leaf; TTNO built with both decomposition algorithms and compared with the harness dense reference "
              "(library todense with explicit and default order AND an independent numpy contraction of the raw node tensors), with "
              "the chain MPO and between the two trees; structural promises of each constructor, node ranks/shapes, labels of "
-             "charge-definite operators.",
+             "charge-definite operators. Constructors are also checked structurally on 7-13 basis sets; operators are generated at overall scales 1e-12 ... 1e6.",
         design_ref="DESIGN.md §4 C02",
         note="Trusted: numpy dense algebra, BasisSet.op_mat. Real operators only (TTNO asserts it); <= 6 basis sets, <= 7 nodes.",
         technique="property-based testing (Hypothesis) with dense reference oracle and topology-independence metamorphic relation",
@@ -37,7 +37,7 @@ CHECKS = {
              "conj, to_complex, copy, operator application and products, conj_trans, contract, MpDm forms), observers and gauge "
              "moves is executed on the library objects and on a dense numpy model in lock step; every result is compared after "
              "every step and again after canonicalising / losslessly compressing a copy, together with the sector and the "
-             "validity of the stored bond labels. Exploration with an exact oracle decides each generated history.",
+             "validity of the stored bond labels. Exploration with an exact oracle decides each generated history. normalize() in its three kinds after generated prefactors, density-operator probes (mpdm_from, apply from either side, gauge move), genuinely complex random states (a + i b), vector-valued product states.",
         design_ref="DESIGN.md §4 C03",
         note="Trusted: numpy dense algebra; todense()*coeff as the represented object. Sizes: 1-6 sites, dense dimension <= 256.",
         technique="model-based property testing (Hypothesis-generated instruction programs, dense reference model in lock step)",
@@ -84,7 +84,7 @@ CHECKS = {
              "batched cached-environment fast path vs the one-by-one path vs opt=False, permutation equivariance, electronic and "
              "vibrational occupations (incl. the per-model operator cache on copies), one-/two-site and electronic RDMs, one-site, "
              "two-site, mutual and bond entropies and bond singular values are all compared with values computed from the dense "
-             "state vector (or dense density operator for the MpDm form, incl. non-diagonal ones).",
+             "state vector (or dense density operator for the MpDm form, incl. non-diagonal ones). Reduced density matrices and entropies are also checked for density operators (physical vs auxiliary index).",
         design_ref="DESIGN.md §4 C07",
         note="Trusted: numpy dense algebra/partial traces; harness dense operators from BasisSet.op_mat. 2-6 sites, dimension <= 256.",
         technique="property-based testing (Hypothesis) with dense reference oracle + differential (fast vs slow path) + permutation metamorphic relation",
@@ -137,7 +137,7 @@ CHECKS = {
              "operators), canonicalisation, pushes of the centre, lossless and truncating compression, norms, expectations, one- and "
              "two-body RDMs of nodes and of single degrees of freedom, entropies, mutual information, bond spectra, conversion "
              "from chain states, executed with a dense model in lock step; metamorphic twin with permuted children lists; isometry, "
-             "bond bounds, label validity; truncation obeys the C05 bounds per edge.",
+             "bond bounds, label validity; truncation obeys the C05 bounds per edge. Also: states with nodes of different dtypes, norms / lossless compression of 1e-20 ... 2e5 multiples, observables around an in-place rescaling of the same object.",
         design_ref="DESIGN.md §4 C11",
         note="Trusted: numpy dense algebra / partial traces; independent raw-tensor contraction. TTNS.add with differing prefactors is outside "
              "the domain (DESIGN §3.9).",
@@ -149,7 +149,7 @@ CHECKS = {
              "PS / two-site PS at verified full bond dimension (1-4 successive calls) vs the dense propagator; P&C RK4 vs the Taylor-4 "
              "replica; norm and energy conservation of one-site PS at bond 1-3; linear tree vs the chain implementation; bond limit; "
              "optimize_ttns energies vs exact diagonalisation in the sector (variational bound, equality on two-node trees); sector, "
-             "labels and input-unchanged after every call.",
+             "labels and input-unchanged after every call. Also: per-bond limits (max_dims), complex-typed real steps, untruncated last sweeps of the tree optimiser (energy of the returned state).",
         design_ref="DESIGN.md §4 C12",
         note="Trusted: numpy eigh-based propagators. ||H||=1, ||H||t in [0.03,2], dense dimension <= 128. Projector-splitting schemes carry "
              "their O(dt^3) splitting error in the oracle.",
@@ -181,7 +181,7 @@ CHECKS = {
              "file-system call of dump_dict and four byte-truncation classes inside the write, in-process (uncatchable exception) and, "
              "in the thorough tier, by real SIGKILL under strace syscall injection - optionally followed by a restart into the "
              "left-over directory crashed again at every instant of its first two dumps; oracle: a complete loadable result of "
-             "the current or previous step remains.",
+             "the current or previous step remains. Also: trees with 11-14 nodes, file names as pathlib.Path / without extension, other_attrs of trees, restarts into a legacy left-over directory (complete .bak + truncated file).",
         design_ref="DESIGN.md §4 C14",
         note="Crash = process death at a file-system call boundary or inside the write (no page-cache reordering model). Legacy dump "
              "formats 0.1-0.3 have no writer in the tree and are not round-tripped.",
@@ -204,7 +204,7 @@ CHECKS = {
              "a larger size and truncated, products in the written order, canonical commutator, DVR/shifted-origin consistency, "
              "Gauss-Legendre quadrature of the sine basis functions, Pauli algebra, single-entry electron matrices; Holstein "
              "(schemes 1-4, periodic, different ground/excited frequencies), spin-boson and translation-invariant builders against "
-             "Hamiltonians assembled from the documented physics, scheme equivalence on shared excitation sectors; Quantity units.",
+             "Hamiltonians assembled from the documented physics, scheme equivalence on shared excitation sectors; Quantity units. copy() of the sine basis must reproduce grid and operator matrices.",
         design_ref="DESIGN.md §4 C16",
         note="Trusted: harness ladder algebra, numpy quadrature, CODATA constants in the harness; dense models observed through Mpo.todense (C01).",
         technique="property-based testing (Hypothesis) + enumerated grid against harness-computed defining relations and independent physics assembly",
@@ -217,7 +217,7 @@ CHECKS = {
              "sign against P H P^T resp. F H F^dagger; ground-state searches and two-site TDVP steps with every on-the-fly-swapping "
              "criterion (a spy counts the exchanges really performed) against the exact sector ground energy, the exact propagator "
              "and the same run without swapping: operator and state reordered consistently, sector / labels / norm kept, energies "
-             "variational and monotone for lossless schedules.",
+             "variational and monotone for lossless schedules. Integer-typed one-electron matrices and integral scales down to 1e-10 are generated.",
         design_ref="DESIGN.md §4 C17, §9",
         note="Trusted: harness fermion algebra on bit strings, numpy eigh/expm. <= 4 spatial orbitals (8 spin sites), <= 3 evolution steps; "
              "sharp OFS = non-OFS comparison only from verified full-bond states (else dt = 1e-6 with a rigorous bound).",
@@ -229,7 +229,7 @@ CHECKS = {
              "real start with complex A) x block sizes for expm_krylov against the dense eigendecomposition at the routine's own "
              "stopping tolerance; generated coefficient arrays with arbitrary quantum-number label patterns (empty and one-sided "
              "sectors, 1-2 components) for svd_qn (SVD/QR, both systems, full/economic), eigh_qn, select_basis and helpers against "
-             "numpy SVD/eigh of the masked matrix, orthonormality, label validity, global ordering and exact restoration.",
+             "numpy SVD/eigh of the masked matrix, orthonormality, label validity, global ordering and exact restoration. The Davidson eigensolver is checked with the optimisers' own call (variational Ritz value, unit vector, Rayleigh quotient) on generated Hermitian matrices incl. exactly diagonal ones.",
         design_ref="DESIGN.md §4 C18",
         note="Trusted: numpy/LAPACK eigh and svd. Krylov dimension <= 60 (quick) / 300 (thorough).",
         technique="property-based testing (Hypothesis) with dense linear-algebra oracles (differential vs numpy/scipy) + coverage-guided fuzzing (atheris/libFuzzer) of the same strategy and oracle",
